@@ -101,6 +101,13 @@ def simple_programs():
             for els in (None, [T('E')]):
                 yield 'if', [['if', [[r, [T('B%d' % i)] + BODY]
                                      for i, r in enumerate(rs)], els]]
+    # expressions with characters that end a tag when read outside quotes
+    for r in (E('x > y'), E('y < x or (x)'), E("x >= 1 and ')' != x")):
+        yield 'if', [['if', [[r, BODY]], [T('E')]]]
+        yield 'if', [['if', [[N('u'), BODY], [r, [T('B')]]], None]]
+        yield 'unless', [['unless', r, BODY]]
+        yield 'with', [['with', E('obj if x > 0 else mp'), BODY, []]]
+        yield 'in', [['in', E('seq[:(1 > 0) + 1]'), IN_BODY, [T('E')], []]]
     for r in refs:
         yield 'unless', [['unless', r, BODY]]
     for ref in (N('seq'), E('seq')):
@@ -232,6 +239,8 @@ def styles(tier):
     out.append({'ws': 1, 'quote': 1, 'endarg': 1, 'ssiend': 1, 'exprkw': 1,
                 'eol': 1})
     out.append({'ws': 2, 'quote': 1, 'endarg': 1, 'eol': 1})
+    out.append({'endarg': 2})
+    out.append({'endarg': 2, 'exprkw': 1, 'ssiend': 1})
     if tier == 'thorough':
         keys = ['quote', 'endarg', 'ssiend', 'exprkw', 'eol']
         for a, b in itertools.combinations(keys, 2):
